@@ -75,6 +75,160 @@ def gen_case(rng, fname):
     return (x, y) + tuple(args), toks
 
 
+def tok_i(v):
+    return ["i", str(len(v))] + [str(int(a)) for a in v]
+
+
+def gen_sparse_case(rng, fname, need_n):
+    """canonical sparse pair (sorted distinct indices; values multiples of 1/8 so that the float32 stores of the Python
+    side are exact), occasionally with empty / identical / disjoint supports"""
+    n = int(rng.choice([1, 2, 3, 6, 12, 30]))
+    kind = str(rng.choice(["random", "random", "identical-support", "disjoint", "one-empty", "both-empty", "cancelling"]))
+
+    def vec(p):
+        idx = np.nonzero(rng.random(n) < p)[0]
+        val = rng.integers(1, 33, len(idx)) / 8.0 * rng.choice([-1.0, 1.0], len(idx))
+        return idx.astype(np.int64), val.astype(np.float64)
+    i1, d1 = vec(0.5)
+    i2, d2 = vec(0.5)
+    if kind == "identical-support":
+        i2, d2 = i1.copy(), rng.integers(1, 33, len(i1)) / 8.0
+    elif kind == "cancelling":
+        i2, d2 = i1.copy(), d1.copy()
+        if len(d2) > 1:
+            d2[0] = -d2[0]
+    elif kind == "disjoint":
+        keep = ~np.isin(i2, i1)
+        i2, d2 = i2[keep], d2[keep]
+    elif kind == "one-empty":
+        i2, d2 = i2[:0], d2[:0]
+    elif kind == "both-empty":
+        i1, d1, i2, d2 = i1[:0], d1[:0], i2[:0], d2[:0]
+    if fname in ("sparse_hellinger", "sparse_ll_dirichlet"):
+        d1, d2 = np.abs(d1), np.abs(d2)
+    if fname == "sparse_ll_dirichlet":
+        d1, d2 = np.ceil(d1), np.ceil(d2)
+    args = [i1, d1, i2, d2]
+    toks = tok_i(i1) + tok_v(d1) + tok_i(i2) + tok_v(d2)
+    if need_n:
+        args.append(n)
+        toks += ["n", str(n)]
+    if fname == "sparse_minkowski":
+        p = float(rng.choice([1.0, 1.5, 2.0, 3.0]))
+        args.append(p)
+        toks += ["s", f2b(p)]
+    return tuple(args), toks
+
+
+def py_call_sparse(f, args):
+    g = getattr(f, "py_func", f)
+    args = tuple(a.copy() if isinstance(a, np.ndarray) else a for a in args)
+    with np.errstate(all="ignore"):
+        try:
+            r = g(*args)
+        except ZeroDivisionError:
+            return "zerodiv"
+    if isinstance(r, tuple):
+        return ("iv", [int(v) for v in r[0]], [float(v) for v in r[1]])
+    if isinstance(r, np.ndarray):
+        return ("i", [int(v) for v in r])
+    return ("s", float(r))
+
+
+def parse_sparse_answer(ans):
+    t = ans.split()
+    if t and t[0] == "idx":
+        if "val" in t:
+            k = t.index("val")
+            return ("iv", [int(v) for v in t[1:k]], [b2f(v) for v in t[k + 1:]])
+        return ("i", [int(v) for v in t[1:]])
+    return ("s", b2f(t[0]))
+
+
+def validate_sparse(ctx, n_per, rng, label="translator-validation(sparse)"):
+    """the translated kernels of umap/sparse.py (Generated/SparseSrc.lean at Float) against the Python functions"""
+    import umap.sparse as S
+    import umap.utils as U
+    import translate
+    ok, log = build()
+    if not ok:
+        ctx.notes.append("srcdrv did not build (translation validation unavailable): " + log[-600:])
+        ctx.proof["broken"].append("translator output does not compile at Float (srcdrv): see notes")
+        return 0
+    _, rep = translate.translate_module(translate.sparse_source(), translate.SPARSE_FUNCS, "umap/sparse.py", "SrcSparse", "-",
+                                        extra_vars=" [IntCast α]", extra_defs=translate.SPARSE_DEFS)
+    rep.pop("__meta__", None)
+    cases, lines = [], []
+    for fname in translate.SPARSE_FUNCS:
+        if rep.get(fname) != "ok":
+            continue
+        if fname in ("approx_log_Gamma", "log_beta", "log_single_beta"):
+            continue                                   # the same text as in distances.py, validated there
+        f = getattr(U, fname) if fname == "norm" else getattr(S, fname)
+        for _ in range(n_per):
+            if fname == "norm":
+                v = rng.integers(-16, 17, int(rng.integers(0, 6))) / 8.0
+                args, toks = (v,), tok_v(v)
+            elif fname in ("arr_unique", "arr_union", "arr_intersect"):
+                a = np.sort(rng.choice(12, int(rng.integers(0, 7)), replace=False)).astype(np.int64)
+                b = np.sort(rng.choice(12, int(rng.integers(0, 7)), replace=False)).astype(np.int64)
+                if fname == "arr_unique":
+                    a = rng.integers(0, 6, int(rng.integers(1, 8))).astype(np.int64)     # unsorted, with repeats
+                    args, toks = (a,), tok_i(a)
+                else:
+                    args, toks = (a, b), tok_i(a) + tok_i(b)
+            else:
+                nparams = len(inspect_params(f))
+                need_n = "n_features" in inspect_params(f)
+                args, toks = gen_sparse_case(rng, fname, need_n)
+            lines.append(" ".join([fname, str(len(args))] + toks))
+            cases.append((fname, f, args))
+    p = subprocess.run([SRCDRV], input=("\n".join(lines) + "\n").encode(), stdout=subprocess.PIPE, stderr=subprocess.PIPE)
+    if p.returncode != 0:
+        raise InfraError("srcdrv failed: " + p.stderr.decode()[-1000:])
+    out = p.stdout.decode().split("\n")[:len(lines)]
+    n_cmp, per = 0, {}
+    for (fname, f, args), ans in zip(cases, out):
+        want = py_call_sparse(f, args)
+        if want == "zerodiv":
+            continue
+        if ans in ("bad-op", ""):
+            ctx.mismatch(label, {"srcdrv": ans, "python": str(want)[:200]}, case_of(fname, args))
+            continue
+        got = parse_sparse_answer(ans)
+        n_cmp += 1
+        per[fname] = per.get(fname, 0) + 1
+        bad = got[0] != want[0]
+        if not bad and got[0] in ("i", "iv"):
+            bad = got[1] != want[1]
+        if not bad:
+            gv = got[2] if got[0] == "iv" else ([got[1]] if got[0] == "s" else [])
+            wv = want[2] if want[0] == "iv" else ([want[1]] if want[0] == "s" else [])
+            if len(gv) != len(wv):
+                bad = True
+            for a, b in zip(gv, wv):
+                if np.isnan(a) and np.isnan(b):
+                    continue
+                if np.isinf(a) or np.isinf(b):
+                    bad |= not (a == b)
+                elif fname in ("sparse_hellinger", "sparse_ll_dirichlet"):
+                    # the Python side keeps float32 products (np.zeros(..., float32)): a 1e-7 relative rounding under the
+                    # final clamped square root is amplified without bound near 0, so the radicands are compared
+                    if abs(a * a - b * b) > 2e-6 * max(1.0, b * b):
+                        bad = True
+                elif abs(a - b) > 2e-6 * max(1.0, abs(b)):
+                    bad = True
+        if bad:
+            ctx.mismatch(label, {"srcdrv": str(got)[:300], "python": str(want)[:300]}, case_of(fname, args))
+    ctx.notes.append(f"{label}: {n_cmp} calls of {len(per)} translated kernels of umap/sparse.py compared with the Python source")
+    return n_cmp
+
+
+def inspect_params(f):
+    import inspect
+    return list(inspect.signature(getattr(f, "py_func", f)).parameters)
+
+
 def case_of(fname, args):
     return {"function": fname, "args": [np.asarray(a).tolist() for a in args]}
 
